@@ -159,20 +159,28 @@ theorem compress_shape (C : CompTables) (s : Sketch) (xs : List Nat) (h : Inv s 
 
 /-! ### the whole image -/
 
-/-- the wire constants as generated from cpc_sketch.hpp -/
-def genWire : WireConsts :=
+/-- the wire constants as generated from cpc_sketch.hpp, with the given shape of `deserialize` on an empty image -/
+def wireOf (repaired : Bool) : WireConsts :=
   { serialVersion := DSGen.cpc_SERIAL_VERSION, family := DSGen.cpc_FAMILY, flagCompressed := DSGen.cpc_FLAG_IS_COMPRESSED,
-    flagHip := DSGen.cpc_FLAG_HAS_HIP, flagTable := DSGen.cpc_FLAG_HAS_TABLE, flagWindow := DSGen.cpc_FLAG_HAS_WINDOW }
+    flagHip := DSGen.cpc_FLAG_HAS_HIP, flagTable := DSGen.cpc_FLAG_HAS_TABLE, flagWindow := DSGen.cpc_FLAG_HAS_WINDOW,
+    emptyKxpIsK := repaired }
+
+/-- the current source -/
+def genWire : WireConsts := wireOf DSGen.cpc_DESER_EMPTY_KXP_IS_K
+/-- the source before fix de90ce5 (kxp = 0 after deserializing an empty image) -/
+def pinnedWire : WireConsts := wireOf false
+/-- the repaired source (kxp = 2^lg_k) -/
+def repairedWire : WireConsts := wireOf true
 
 /-- the flag bits are distinct positions (an obligation on the generated constants) -/
-theorem gen_flags_bits (a b c : Bool) :
-    (2^genWire.flagCompressed + (if a then 2^genWire.flagHip else 0) + (if b then 2^genWire.flagTable else 0)
-      + (if c then 2^genWire.flagWindow else 0)).testBit genWire.flagHip = a ∧
-    (2^genWire.flagCompressed + (if a then 2^genWire.flagHip else 0) + (if b then 2^genWire.flagTable else 0)
-      + (if c then 2^genWire.flagWindow else 0)).testBit genWire.flagTable = b ∧
-    (2^genWire.flagCompressed + (if a then 2^genWire.flagHip else 0) + (if b then 2^genWire.flagTable else 0)
-      + (if c then 2^genWire.flagWindow else 0)).testBit genWire.flagWindow = c := by
-  cases a <;> cases b <;> cases c <;> decide
+theorem gen_flags_bits (r a b c : Bool) :
+    (2^(wireOf r).flagCompressed + (if a then 2^(wireOf r).flagHip else 0) + (if b then 2^(wireOf r).flagTable else 0)
+      + (if c then 2^(wireOf r).flagWindow else 0)).testBit (wireOf r).flagHip = a ∧
+    (2^(wireOf r).flagCompressed + (if a then 2^(wireOf r).flagHip else 0) + (if b then 2^(wireOf r).flagTable else 0)
+      + (if c then 2^(wireOf r).flagWindow else 0)).testBit (wireOf r).flagTable = b ∧
+    (2^(wireOf r).flagCompressed + (if a then 2^(wireOf r).flagHip else 0) + (if b then 2^(wireOf r).flagTable else 0)
+      + (if c then 2^(wireOf r).flagWindow else 0)).testBit (wireOf r).flagWindow = c := by
+  cases r <;> cases a <;> cases b <;> cases c <;> decide
 
 theorem preambleInts_le (c : Nat) (a b d : Bool) : preambleInts c a b d ≤ 10 := by
   unfold preambleInts
@@ -182,12 +190,12 @@ theorem preambleInts_le (c : Nat) (a b d : Bool) : preambleInts c a b d ≤ 10 :
 
 /-- **the image of a non-empty valid sketch gives back the sketch** (table, window, offset, fic, merged flag, C, lg_k)
 and the two HIP registers exactly as stored (none for a merged sketch) -/
-theorem image_roundtrip (C : CompTables) (hC : TablesOK C) (sh : Nat) (s : Sketch) (xs : List Nat) (hb : HipBits)
+theorem image_roundtrip (r : Bool) (C : CompTables) (hC : TablesOK C) (sh : Nat) (s : Sketch) (xs : List Nat) (hb : HipBits)
     (ofBits : Nat → Float) (hsh : sh < 65536) (h : Inv s xs) (hv : ∀ x ∈ xs, x < 64 * 2^s.lgK)
     (hoff : s.offset = determineCorrectOffset s.lgK s.numCoupons) (hc0 : s.numCoupons ≠ 0) (hc : s.numCoupons < 256^4)
     (hk : hb.kxp < 256^8) (hh : hb.hip < 256^8) (htl : s.table.length < 256^4)
     (hwl : (compress C s).tableWords.length < 256^4) (hwl' : (compress C s).windowWords.length < 256^4) :
-    ∃ s', deserializeCore genWire C sh (serializeCore genWire C sh s hb) ofBits
+    ∃ s', deserializeCore (wireOf r) C sh (serializeCore (wireOf r) C sh s hb) ofBits
         = some (s', if s.merged then ⟨0, 0⟩ else hb) ∧
       s'.lgK = s.lgK ∧ s'.numCoupons = s.numCoupons ∧ s'.table = s.table ∧ s'.window = s.window ∧
       s'.offset = s.offset ∧ s'.fic = s.fic ∧ s'.merged = s.merged := by
@@ -220,7 +228,7 @@ theorem image_roundtrip (C : CompTables) (hC : TablesOK C) (sh : Nat) (s : Sketc
     rcases hnl with h1 | h1
     · omega
     · rw [hnw h1]; exact hc
-  obtain ⟨f1, f2, f3⟩ := gen_flags_bits hasHip hasTable hasWindow
+  obtain ⟨f1, f2, f3⟩ := gen_flags_bits r hasHip hasTable hasWindow
   have hbody := readBody_written hasHip hasTable hasWindow s.numCoupons z.tableNumEntries hb z.tableWords z.windowWords []
     hor' hc hne hk hh hwl hwl' htw hww ht0 hw0
   simp only [List.append_nil] at hbody
@@ -229,9 +237,9 @@ theorem image_roundtrip (C : CompTables) (hC : TablesOK C) (sh : Nat) (s : Sketc
   rw [hbody]
   -- the size check
   have hpre := preambleInts_le s.numCoupons hasHip hasTable hasWindow
-  have hlen : ¬ (List.length (preambleInts s.numCoupons hasHip hasTable hasWindow :: genWire.serialVersion :: genWire.family :: s.lgK :: s.fic ::
-      (2^genWire.flagCompressed + (if hasHip = true then 2^genWire.flagHip else 0) + (if hasTable = true then 2^genWire.flagTable else 0)
-        + (if hasWindow = true then 2^genWire.flagWindow else 0)) :: sh % 256 :: sh / 256 % 256 ::
+  have hlen : ¬ (List.length (preambleInts s.numCoupons hasHip hasTable hasWindow :: (wireOf r).serialVersion :: (wireOf r).family :: s.lgK :: s.fic ::
+      (2^(wireOf r).flagCompressed + (if hasHip = true then 2^(wireOf r).flagHip else 0) + (if hasTable = true then 2^(wireOf r).flagTable else 0)
+        + (if hasWindow = true then 2^(wireOf r).flagWindow else 0)) :: sh % 256 :: sh / 256 % 256 ::
       (leBytes 4 s.numCoupons ++ ((if (hasTable && hasWindow) = true then leBytes 4 z.tableNumEntries ++ (if hasHip = true then leBytes 8 hb.kxp ++ leBytes 8 hb.hip else []) else []) ++
         ((if hasTable = true then leBytes 4 z.tableWords.length else []) ++ ((if hasWindow = true then leBytes 4 z.windowWords.length else []) ++
           ((if (hasHip && !(hasTable && hasWindow)) = true then leBytes 8 hb.kxp ++ leBytes 8 hb.hip else []) ++
@@ -242,7 +250,7 @@ theorem image_roundtrip (C : CompTables) (hC : TablesOK C) (sh : Nat) (s : Sketc
     cases hasHip <;> cases hasTable <;> cases hasWindow <;> simp at hor' ⊢ <;> omega
   rw [if_neg hlen]
   have hshe : sh % 256 + 256 * (sh / 256 % 256) = sh := by omega
-  simp only [List.isEmpty_nil, Bool.not_true, Bool.false_eq_true, if_false, ne_eq, not_true_eq_false, hshe]
+  simp only [List.isEmpty_nil, Bool.not_true, Bool.false_eq_true, if_false, ne_eq, not_true_eq_false, hshe, hc0, false_and]
   -- the compressed state read back is the one written
   have hz : ({ tableWords := z.tableWords, tableNumEntries := (if hasWindow = true then (if hasTable = true then z.tableNumEntries else 0) else s.numCoupons),
                windowWords := z.windowWords } : Compressed) = z := by
@@ -262,5 +270,32 @@ theorem image_roundtrip (C : CompTables) (hC : TablesOK C) (sh : Nat) (s : Sketc
     rw [← hhip]; cases s.merged <;> simp
   · show (!hasHip) = s.merged
     rw [← hhip]; simp
+
+theorem compress_empty (C : CompTables) (s : Sketch) (h0 : s.numCoupons = 0) :
+    compress C s = { tableWords := [], tableNumEntries := 0, windowWords := [] } := by
+  unfold compress
+  simp only [(flavor_empty_iff s.lgK s.numCoupons).2 h0]
+
+/-- the image of an EMPTY valid sketch: everything comes back; the registers are those the source shape gives
+(`kxp = 2^lg_k` for the repaired shape, 0 for the pinned one), `hip = 0` -/
+theorem image_roundtrip_empty (r : Bool) (C : CompTables) (sh : Nat) (s : Sketch) (xs : List Nat) (hb : HipBits)
+    (ofBits : Nat → Float) (hsh : sh < 65536) (h : Inv s xs) (hv : ∀ x ∈ xs, x < 64 * 2^s.lgK)
+    (hoff : s.offset = determineCorrectOffset s.lgK s.numCoupons) (hc0 : s.numCoupons = 0) :
+    ∃ s', deserializeCore (wireOf r) C sh (serializeCore (wireOf r) C sh s hb) ofBits
+        = some (s', if r = true then ⟨pow2Bits s.lgK, 0⟩ else ⟨0, 0⟩) ∧
+      s'.lgK = s.lgK ∧ s'.numCoupons = s.numCoupons ∧ s'.table = s.table ∧ s'.window = s.window ∧
+      s'.offset = s.offset ∧ s'.fic = s.fic ∧ s'.merged = s.merged := by
+  obtain ⟨ht, hw⟩ := table_nil_of_empty s xs h hv hc0
+  obtain ⟨f1, f2, f3⟩ := gen_flags_bits r (!s.merged) false false
+  unfold serializeCore
+  simp only [compress_empty C s hc0, hc0, if_true, List.isEmpty_nil, Bool.not_true] at f1 f2 f3 ⊢
+  unfold deserializeCore
+  simp only [leBytes_two, List.cons_append, List.nil_append, f1, f2, f3]
+  have hshe : sh % 256 + 256 * (sh / 256 % 256) = sh := by omega
+  have hunc : uncompress C { tableWords := [], tableNumEntries := 0, windowWords := [] } s.lgK 0 = ([], []) := by
+    unfold uncompress
+    simp only [(flavor_empty_iff s.lgK 0).2 rfl]
+  simp [readBody, preambleInts, hshe, hunc, wireOf]
+  exact ⟨ht, hw, by rw [hoff, hc0]⟩
 
 end DS.Cpc
